@@ -168,6 +168,7 @@ def run(repo, rep):
                           'lazy child documents are materialised on entry',
                           '%s no longer materialises %s with list(...) on entry: child printing is deferred past the '
                           'visit window of the caller' % (fname, p), nontrivial=True)
+    _REPO[0] = repo
     for f in repo.all_functions(core_only=True):
         par = enclosing_map(f.node)
         for g in ast.walk(f.node):
@@ -238,6 +239,9 @@ def _constant_args(c):
     return all(all(isinstance(x, (ast.Constant, ast.Tuple, ast.List, ast.Load)) for x in ast.walk(a)) for a in pos)
 
 
+_REPO = [None]
+
+
 def _consumed(g, par, f, consumers, transparent, pkg_consumers, depth=0):
     if depth > 6:
         return False, 'flows too far to follow'
@@ -272,6 +276,22 @@ def _consumed(g, par, f, consumers, transparent, pkg_consumers, depth=0):
             return False, 'is stored unconsumed in a literal'
         return _consumed(p, par, f, consumers, transparent, pkg_consumers, depth + 1)
     if isinstance(p, ast.Return):
+        # returned by a private helper: consumed iff every caller in the package consumes the helper's result
+        repo_ = _REPO[0]
+        if repo_ is not None and f.parent is None and f.name.startswith('_') and not f.name.startswith('__'):
+            sites_ = []
+            for g2 in repo_.all_functions(core_only=True):
+                for c in ast.walk(g2.node):
+                    if isinstance(c, ast.Call) and isinstance(c.func, ast.Name) and c.func.id == f.name:
+                        r_ = repo_.resolve(g2.module, f.name)
+                        if r_ and r_[0] == 'func' and r_[1] is f:
+                            sites_.append((g2, c))
+            if sites_:
+                for g2, c in sites_:
+                    ok, why = _consumed(c, enclosing_map(g2.node), g2, consumers, transparent, pkg_consumers, depth + 1)
+                    if not ok:
+                        return False, 'is returned to %s, where it %s' % (g2.name, why)
+                return True, ''
         return False, 'is returned unconsumed'
     if isinstance(p, ast.Expr):
         return False, 'is discarded'
